@@ -325,6 +325,9 @@ class TFLiteSupportedOperators:
         # Reshape specific checks:
         self.specific_constraints[Op.Reshape].append(TFLiteSupportedOperators.constraint_reshape_shape_constant)
 
+        # Pack specific checks:
+        self.specific_constraints[Op.Pack].append(TFLiteSupportedOperators.constraint_pack_batch)
+
         # ArgMax specific checks:
         self.specific_constraints[Op.ArgMax].append(TFLiteSupportedOperators.constraint_argmax_axis)
         self.specific_constraints[Op.ArgMax].append(TFLiteSupportedOperators.constraint_argmax_depth)
@@ -985,6 +988,20 @@ class TFLiteSupportedOperators:
             axis in (inp_dims - 1, -1),
             f"Axis is {axis} and number of input dimensions is {inp_dims}",
         )
+
+    @staticmethod
+    def constraint_pack_batch(op):
+        "3D values that are packed along an axis other than the first must have a first dimension of 1"
+        # the values are copied as 4D feature maps [d0, 1, d1, d2] / [d0, d1, 1, d2] / [d0, d1, d2, 1]: d0 is their batch
+        axis = int(op.attrs["axis"])
+        valid = True
+        extra = []
+        for tens in op.inputs:
+            if tens is not None and len(tens.shape) == 3 and axis % 4 != 0 and tens.shape[0] != 1:
+                valid = False
+                extra.append(f"Tensor '{tens.name}' has shape: {tens.shape}")
+        extra = ", ".join(extra)
+        return valid, f"Op has axis={axis} and {extra}"
 
     @staticmethod
     def constraint_argmax_depth(op):
